@@ -569,6 +569,22 @@ def run_cases(pid, cases, tag="impl", timeout=1500, jit=True, per_worker_min=6):
                     out[i] = [dict(fn=o["fn"], exc=f"PROCESS-{s['status'].upper()}",
                                    exc_msg=f"rc={s.get('rc')} {s.get('log', '')[-200:]}", support_calls=0)
                               for o in c["ops"]]
+    # A per-call time limit that fired is re-examined before anybody is blamed: the case is run
+    # again alone, after the worker's warm-up, with a five-minute limit.  Only a query that still
+    # does not return counts as a hang (machine load and cold numba caches must never look like one).
+    again = [i for i, rr in enumerate(out) if rr and any(r.get("exc") == "TIMEOUT" for r in rr)]
+    if again:
+        retry = []
+        for i in again:
+            c = dict(cases[i])
+            c["ops"] = [dict(o, timeout=300) for o in c["ops"]]
+            retry.append(dict(cases=[c]))
+        singles = cm.run_impl_parallel(pid, "narrow", retry, timeout=1200, jit=jit, tag=tag + "_retry")
+        for i, s in zip(again, singles):
+            if s["status"] == "ok":
+                out[i] = s["result"]["results"][0]
+                for r in out[i]:
+                    r["retried_after_timeout"] = True
     return out
 
 
